@@ -165,7 +165,11 @@ func genTreeOrProg(t *rapid.T, nFaultsMax int) *Scenario {
 			sc.Invs[i].JP = true
 		}
 	default:
-		sc = depthScenario(t)
+		if chance(t, 35, "depthfam") {
+			sc = depthScenario(t)
+		} else {
+			sc = GenTreeScenario(t, TreeCfg{MaxInvs: 2, AllKinds: true, EmptyData: 20, ValuePct: 40, LowGasPct: 20})
+		}
 	}
 	if nFaultsMax > 0 && chance(t, 40, "faults") {
 		n := rapid.IntRange(1, nFaultsMax).Draw(t, "nfaults")
@@ -183,17 +187,26 @@ func depthScenario(t *rapid.T) *Scenario {
 	self := ContractAddrs[0]
 	kind := []byte{CALL, CALL, CALLCODE, DELEGATECALL}[uniform(t, 0, 3, "depthkind")]
 	fork := ForkNames[uniform(t, 1, 1, "depthfork")] // Homestead: DELEGATECALL exists, no EIP-150
+	withCreate := rapid.Bool().Draw(t, "depthcreate")
+	margin := uint64(12000)
+	if withCreate {
+		margin = 80000
+	}
 	a.Push(0).Push(0).Push(0).Push(0)
 	if kind != DELEGATECALL {
 		a.Push(uint64(uniform(t, 0, 1, "depthvalue")))
 	}
 	// before EIP-150 asking for more gas than is left is an error: leave a margin
-	a.Push(self[:]).Push(12000).Op(GAS, SUB, kind)
+	a.Push(self[:]).Push(margin).Op(GAS, SUB, kind)
 	a.Push(1).Op(SSTORE) // slot 1 := success flag of the call
+	if withCreate {
+		// every frame, also the deepest one (where it is refused for depth), creates
+		a.Push(0).Push(0).Push(uint64(uniform(t, 0, 1, "depthcv"))).Op(CREATE).Push(2).Op(SSTORE)
+	}
 	a.Op(STOP)
 	sc := &Scenario{Fork: fork, Note: "depth"}
 	sc.Accounts = []Account{{Addr: self, Nonce: 1, Code: a.Bytes(), Balance: hexU64(100000)}, {Addr: EOAAddr, Balance: hexU64(1 << 50), Nonce: 1}}
-	sc.Invs = []Invocation{{Kind: "call", Origin: EOAAddr, Caller: EOAAddr, To: self, Gas: 100_000_000, JP: rapid.Bool().Draw(t, "depthjp")}}
+	sc.Invs = []Invocation{{Kind: "call", Origin: EOAAddr, Caller: EOAAddr, To: self, Gas: 300_000_000, JP: rapid.Bool().Draw(t, "depthjp")}}
 	return sc
 }
 
